@@ -42,7 +42,7 @@ func RegisterAggregateFunc(methodNm string, fun Aggregate) error {
 }
 
 func Max(data []ArgsType) string {
-	maxNumber := math.SmallestNonzeroFloat64
+	maxNumber := -math.MaxFloat64
 	for _, d := range data {
 		f := d.Float()
 		if maxNumber < f {
